@@ -267,4 +267,54 @@ theorem date_add_spec (y m d : Int) (hy : InRange y) (hv : Valid y m d) (months 
   · show 1 ≤ min c.2.2 (daysInMonth y2 m2); omega
   · show min c.2.2 (daysInMonth y2 m2) ≤ daysInMonth y2 m2; omega
 
+/-! ### differences -/
+
+theorem wrap32_id (x : Int) (h : -2147483648 ≤ x ∧ x < 2147483648) : wrap32 x = x := by
+  unfold wrap32; omega
+
+theorem normalise_zero (ds : DateSpan) : (DateTimeSpan.mk ds 0).normalise = ⟨ds, 0⟩ := by
+  unfold DateTimeSpan.normalise
+  have hq : quot 0 nsPerDay = 0 := by decide
+  simp [hq]
+
+/-- month count of a date: `year * 12 + month - 1` -/
+def monthIndex (y m : Int) : Int := y * 12 + (m - 1)
+
+theorem toDateSpan_valid (y m d : Int) (hy : InRange y) (hv : Valid y m d) :
+    (makeDate y m d).toDateSpan = ⟨monthIndex y m, d - 1⟩ := by
+  have hb := valid_bounds hv
+  obtain ⟨e1, e2, e3⟩ := makeDate_fields y m d hy hb.1 hb.2
+  unfold Date.toDateSpan makeDateSpan monthIndex
+  rw [e1, e2, e3]
+  unfold InRange minYear maxYear at hy
+  rw [wrap32_id _ (by omega), wrap32_id _ (by omega)]
+  congr 1; omega
+
+/-- `Date - Date` is the field-wise difference (months on `year*12 + month`, days of the month) -/
+theorem diffDate_valid (y1 m1 a y2 m2 b : Int) (hy1 : InRange y1) (hv1 : Valid y1 m1 a)
+    (hy2 : InRange y2) (hv2 : Valid y2 m2 b) :
+    (makeDate y1 m1 a).diffDate (makeDate y2 m2 b) = ⟨monthIndex y1 m1 - monthIndex y2 m2, a - b⟩ := by
+  have ht := toDateTime_valid y1 m1 a hy1 hv1
+  have hc := civil_of (daysFromCivil y1 m1 a) 0 (by omega) nsPerDay_pos
+  have hd := dayNum_mul (daysFromCivil y1 m1 a) 0 (by omega) nsPerDay_pos
+  simp only [Int.add_zero] at hc hd
+  have hrt := civilFromDays_daysFromCivil y1 m1 a hv1
+  unfold Date.diffDate DateTime.diffDate DateTime.toSpan DateTimeSpan.subDateSpan newDateTimeSpan
+  rw [ht, hd.2]
+  have hdate : DateTime.date (daysFromCivil y1 m1 a * nsPerDay) = makeDate y1 m1 a := by
+    unfold DateTime.date; rw [hc.1, hc.2.1, hc.2.2, hrt]
+  rw [hdate, toDateSpan_valid y1 m1 a hy1 hv1, toDateSpan_valid y2 m2 b hy2 hv2, normalise_zero]
+  simp only
+  rw [normalise_zero]
+  simp only
+  have hb1 := valid_bounds hv1
+  have hb2 := valid_bounds hv2
+  unfold InRange minYear maxYear at hy1 hy2
+  unfold DateSpan.add DateSpan.negate monthIndex
+  simp only
+  have h1 := hv1.1; have h1' := hv1.2.1; have h2 := hv2.1; have h2' := hv2.2.1
+  rw [wrap32_id (-(y2 * 12 + (m2 - 1))) (by omega), wrap32_id (-(b - 1)) (by omega),
+    wrap32_id _ (by omega), wrap32_id _ (by omega)]
+  congr 1 <;> omega
+
 end Elk.Date
